@@ -165,7 +165,7 @@ func c06Identity(c *Ctx) {
 	p := c.P
 	rule := "C06.identity"
 	c.Doc(rule, "every OffsetCommitRequest built by the offset manager carries ConsumerGroup ← om.group, ConsumerID ← om.memberID, ConsumerGroupGeneration ← om.generation")
-	c.Floor(rule, 2)
+	c.Floor(rule, 3)
 	fn := c.NeedFn(rule, "offsetManager.constructRequest")
 	if fn == nil {
 		return
@@ -174,11 +174,18 @@ func c06Identity(c *Ctx) {
 	if len(lits) == 0 {
 		c.Unresolved(rule, "OffsetCommitRequest literal")
 	}
-	for _, l := range lits {
-		ok := l.fields["ConsumerGroup"] != nil && FieldLoad("offsetManager.group")(l.fields["ConsumerGroup"]) &&
-			l.fields["ConsumerID"] != nil && FieldLoad("offsetManager.memberID")(l.fields["ConsumerID"]) &&
-			l.fields["ConsumerGroupGeneration"] != nil && FieldLoad("offsetManager.generation")(l.fields["ConsumerGroupGeneration"])
-		c.Check(ok, rule, fn, "request-identity", l.alloc, "(group, member id, generation) ← the offset manager's", "a commit request does not carry the manager's group/member id/generation: the coordinator rejects it or accepts a fenced member's commit", nil)
+	// one obligation per identity field (however many literals build the request)
+	for _, f := range []struct{ field, src string }{
+		{"ConsumerGroup", "offsetManager.group"}, {"ConsumerID", "offsetManager.memberID"}, {"ConsumerGroupGeneration", "offsetManager.generation"},
+	} {
+		ok := len(lits) > 0
+		var at ssa.Instruction
+		for _, l := range lits {
+			if l.fields[f.field] == nil || !FieldLoad(f.src)(l.fields[f.field]) {
+				ok, at = false, l.alloc
+			}
+		}
+		c.Check(ok, rule, fn, "request-identity:"+f.field, at, f.field+" ← "+f.src+" in every request literal", "a commit request does not carry the manager's "+f.field+" ("+f.src+"): the coordinator rejects it or accepts a fenced member's commit", nil)
 	}
 }
 
